@@ -143,8 +143,10 @@ PN_LOCAL_NOESC = seq(alt(PN_CHARS_U, ":", "[0-9]", PERCENT),
 # label without the leading "_:"
 BLANK_NODE_LABEL_TTL = seq(alt(PN_CHARS_U, "[0-9]"), opt(seq(star(alt(PN_CHARS, "\\.")), PN_CHARS)))
 BLANK_NODE_LABEL_NT = seq(alt(PN_CHARS_U_NT, "[0-9]"), opt(seq(star(alt(PN_CHARS_NT, "\\.")), PN_CHARS_NT)))
-# what a tokenizer that stops at a '.' not followed by a name character completes (see DESIGN C08 L8.1)
-MUST_LABEL = seq(alt(PN_CHARS_U, "[0-9]"), star(alt(PN_CHARS, seq("\\.", PN_CHARS))))
+# what the back-ends certainly deliver (see DESIGN C08 L8.1): the whole W3C production.  Until the second hunts this was the narrower
+# FIRST (PN_CHARS | '.' PN_CHARS)* ("what a tokenizer that stops at a '.' not followed by a name character completes"), which was a
+# transcription of the repository's own regex, defect included: rio_xml (rdf:nodeID is an NCName) and spargebra deliver `a..b`.
+MUST_LABEL = BLANK_NODE_LABEL_TTL
 LANGTAG_TTL = seq("[a-zA-Z]+", star(seq("-", "[a-zA-Z0-9]+")))      # without the leading '@'
 VARNAME = seq(alt(PN_CHARS_U, "[0-9]"),
               star(alt(PN_CHARS_U, "[0-9\\x{00B7}\\x{0300}-\\x{036F}\\x{203F}-\\x{2040}]")))
